@@ -763,3 +763,42 @@ Inductive reset_outcome := RAbort | RDefault502 | RRetry.
 Definition on_backend_reset (guard response_started request_consumed : bool) : reset_outcome :=
   if guard && response_started then RAbort
   else if request_consumed then RDefault502 else RRetry.
+
+(* ------------------------------------------------------------------ *)
+(** * A trailer block ([pkawa::handle_trailer])
+
+    The decoded fields are accounted one by one: name + value + 32 octets
+    (RFC 9113 6.5.2) against min(MAX_HEADER_LIST_SIZE, MAX_TRAILER_BYTES), then
+    the field count against [max_header_fields], then validity (no
+    pseudo-header, no invalid name/value); the four client-attribution names
+    are dropped.  The first limit or defect met decides the outcome, the fields
+    after it are not looked at.  A field is (kind, name length, value length). *)
+Inductive tkind := TPlain | TPseudo | TSpoof | TInvalid.
+Inductive tout := TOk (stored : N) | TErr (e : h2err).
+Record tacc := mktacc { t_bytes : N; t_count : N; t_stored : N; t_flag : option h2err }.
+
+Definition tfield_size (f : tkind * N * N) : N := snd (fst f) + snd f + HEADER_FIELD_SIZE_OVERHEAD.
+
+Definition tstep (budget maxf : N) (length_framed : bool) (a : tacc) (f : tkind * N * N) : tacc :=
+  match t_flag a with
+  | Some _ => a
+  | None =>
+    let b := t_bytes a + tfield_size f in
+    if budget <? b then mktacc b (t_count a) (t_stored a) (Some EnhanceYourCalm)
+    else
+      let c := t_count a + 1 in
+      if maxf <? c then mktacc b c (t_stored a) (Some EnhanceYourCalm)
+      else match fst (fst f) with
+           | TPseudo | TInvalid => mktacc b c (t_stored a) (Some ProtocolError)
+           | TSpoof => mktacc b c (t_stored a) None
+           | TPlain => mktacc b c (if length_framed then t_stored a else t_stored a + 1) None
+           end
+  end.
+
+Definition trailer_budget (max_list : N) : N := N.min max_list MAX_TRAILER_BYTES.
+
+Definition trailer_outcome (max_list maxf : N) (end_stream length_framed : bool) (fs : list (tkind * N * N)) : tout :=
+  if negb end_stream then TErr ProtocolError
+  else
+    let a := fold_left (tstep (trailer_budget max_list) maxf length_framed) fs (mktacc 0 0 0 None) in
+    match t_flag a with Some e => TErr e | None => TOk (t_stored a) end.
